@@ -309,7 +309,7 @@ func ruleP04PauseSelector(p *Prog, r *Report) {
 		okDur := false
 		d := arms["Duration"]
 		for _, ret := range plainReturnsOf(d) {
-			if bo, isB := strip(retResult(ret, 0)).(*ssa.BinOp); isB {
+			if bo, isB := normCmp(retResult(ret, 0)); isB {
 				nm, recv, _, _ := methodCall(bo.X)
 				k, isK := constInt(bo.Y)
 				if nm == "InMinutes" && recv != nil && strip(recv) == ssa.Value(d.Params[len(d.Params)-1]) && isK && ((bo.Op == token.LEQ && k == 0) || (bo.Op == token.LSS && k == 1)) {
@@ -623,6 +623,15 @@ func ruleP12NowAll(p *Prog, r *Report) {
 	if tot == "" || rep == "" {
 		r.undecided(rule, "report=total:pipeline", "-", "the --now step of total or report was not found (total: %q, report: %q)", tot, rep)
 		return
+	}
+	// … and the filter comes first (total, report, tags alike): --now turns today's open range
+	// into a closed one, so a filter that runs afterwards no longer sees it as `open-range`
+	// (and counts it under `range`). klog json is the exception the commands have today (§12.2).
+	for _, cmd := range []string{"Total", "Report", "Tags"} {
+		fn := "(*klog/app/cli." + cmd + ").Run"
+		if ch, found := chains[fn]; found {
+			r.check(strings.HasPrefix(ch, "ApplyFilter<"), rule, cmd+":filter-first", sites[fn], cmd+" applies --now to what the filter selected", cmd+" applies --now to "+ch+", i.e. before the filter: with --entry-type the filter then sees the open range as an ordinary range — `--entry-type open-range --now` selects nothing")
+		}
 	}
 	r.check(tot == rep, rule, "report=total:pipeline", sites["(*klog/app/cli.Report).Run"], "report and total close open ranges at the same point of the pipeline ("+tot+")", fmt.Sprintf("report applies --now to %s, total to %s: with --now and an entry-type filter the two evaluate different entries, so the report's grand total differs from `klog total`", rep, tot))
 }
